@@ -117,11 +117,22 @@ func ZZ_C04_StructFields(sv *zzsv.T) {
 			obj = &b
 		}
 	}
-	shadowMode := sv.Choice("shadow", 4)
-	shadow := shadowMode > 0
-	e := New("return " + name + ";")
+	shadowMode := sv.Choice("shadow", 8)
+	shadow := shadowMode > 0 && shadowMode < 4
+	expr := name
 	if name == "M" {
-		e.Script = "return M[\"k\"];"
+		expr = "M[\"k\"]"
+	}
+	e := New("return " + expr + ";")
+	switch shadowMode {
+	case 4: // read inside a user-defined function (the first thing to touch the object)
+		e.Script = "function f() { return " + expr + "; } return f();"
+	case 5: // read inside a function after the caller has read another field
+		e.Script = "function f() { return " + expr + "; } probe = B; return f();"
+	case 6: // read after a function call has returned
+		e.Script = "function f() { return 1; } probe = S; q = f(); return " + expr + ";"
+	case 7: // an argument expression of the call reads a field first
+		e.Script = "function f(x) { return " + expr + "; } return f(I);"
 	}
 	switch shadowMode {
 	case 2: // another field is read first (the object has been inspected already)
@@ -254,6 +265,15 @@ func ZZ_C04_Unsupported(sv *zzsv.T) {
 	}
 	useRun := sv.Choice("api", 2) == 1
 	e := New("return " + name + ";")
+	if name == "SU" || name == "SP" {
+		// the members of a slice the engine cannot convert
+		switch sv.Choice("member", 3) {
+		case 1:
+			e.Script = "return " + name + "[0];"
+		case 2:
+			e.Script = "foreach m in " + name + " { return m; } return 1;"
+		}
+	}
 	sv.Note("script", e.Script)
 	sv.Assume(e.Prepare() == nil)
 	var out object.Object
@@ -300,6 +320,12 @@ func ZZ_C04_Map(sv *zzsv.T) {
 		"return empty;", "return obj.in;", "return obj[\"deep\"][\"x\"];", "return missing;", "return len(arr);"}
 	k := sv.Choice("script", len(scripts))
 	e := New(scripts[k])
+	switch sv.Choice("where", 3) {
+	case 1: // the same read inside a user-defined function, after the caller read a member
+		e.Script = "function f() { " + scripts[k] + " } probe = flag; return f();"
+	case 2: // inside a loop body inside a function
+		e.Script = "function f(x) { foreach v in [1] { " + scripts[k] + " } return 0; } return f(str);"
+	}
 	sv.Note("script", e.Script)
 	sv.Assume(e.Prepare() == nil)
 	out, err := e.Execute(doc)
